@@ -98,10 +98,16 @@ class GrammarParser:
             self._gettoken()
             a, z = self._parse_rhs()
             self._expect(PythonTokenTypes.OP, ']')
-            # Make it also possible that there is no token and change the
-            # state.
-            a.add_arc(z)
-            return a, z
+            # Make it also possible that there is no token. This needs new
+            # states, because a and z may be part of a repetition, e.g. in
+            # `[x+ y]` or `[y x+]`, where a direct arc from a to z would
+            # make it possible to leave or enter the repetition.
+            aa = NFAState(self._current_rule_name)
+            zz = NFAState(self._current_rule_name)
+            aa.add_arc(a)
+            aa.add_arc(zz)
+            z.add_arc(zz)
+            return aa, zz
         else:
             a, z = self._parse_atom()
             value = self.value
@@ -113,9 +119,13 @@ class GrammarParser:
             if value == "+":
                 return a, z
             else:
-                # The end state is the same as the beginning, nothing must
-                # change.
-                return a, a
+                # The end state is the same as the beginning. This has to be
+                # a new state: a may be part of a repetition itself, e.g.
+                # in `(x+ y)*`, and must not become an end state.
+                aa = NFAState(self._current_rule_name)
+                aa.add_arc(a)
+                z.add_arc(aa)
+                return aa, aa
 
     def _parse_atom(self):
         # atom: '(' rhs ')' | NAME | STRING
